@@ -327,8 +327,8 @@ def announcement_retires_holder(P, R, rule='C01.MPT.5'):
             r = e.rel()
             if r is not None and const_of(r[2]) == 0:
                 l = r[0]
-                if isinstance(l, dict) and l.get('k') == 'assign':
-                    l = l.get('lhs')
+                if isinstance(l, dict) and l.get('k') == 'bin' and l.get('op') == '=':
+                    l = l.get('l')
                 if is_var(l, st[1]) and r[1] == '==':
                     return 'S'       # nothing is stored under the id
         return st
